@@ -19,7 +19,7 @@ RULE = (
     "one bin containing it (target_data and bins are handed over times 2**e, e in {0, -43, -60, 30, 100}: an exact scaling); column sums are 1 when the cell lies within the bins; weights >= 0; merging two adjacent bins "
     "adds their rows; reversed bins reverse the rows. Grid.transform(method='conservative') is run with target_data on "
     "outer, on center (bounds = model interp with extension) or omitted (= the grid's own outer coordinate), random extra dims/order, eagerly and dask-chunked over "
-    "non-axis dims under synchronous and threaded schedulers, and compared with W applied to the data; the caller's data, "
+    "non-axis dims under synchronous and threaded schedulers, in half of the cases after the same Grid has transformed against another target_data of the same name and shape, and compared with W applied to the data; the caller's data, "
     "target_data and bins are byte-identical afterwards and an immediate second call returns the same. Class = (path, n, "
     "#bins, direction, #columns, has homogeneous cell, has value on a bin edge, inside span); non-trivial iff some cell "
     "overlaps two bins or is homogeneous."
@@ -226,13 +226,24 @@ def run_grid(ctx, desc, nontrivial):
     target = b if desc["target_as"] == "ndarray" else xr.DataArray(b, dims=["dens_lev"], name="dens_lev")
     newdim = ("z_ou" if omit else "dens") if desc["target_as"] == "ndarray" else "dens_lev"
     feats = features(desc)
-    ctx.judged(feats + (desc["dask"], bool(desc["extra_pos"]), omit), nontrivial)
+    ctx.judged(feats + (desc["dask"], bool(desc["extra_pos"]), omit, (not omit) and desc["dseed"] % 2 == 1), nontrivial)
     tdkw = {} if omit else {"target_data": td}
     if desc["dask"]:
         da = da.chunk({"col": 1, "e": 1})
         td = td.chunk({"col": 1})
     tdv = np.array(td.values)
     keep = (data.copy(), tdv.copy(), b.copy())
+    warm = (not omit) and desc["dseed"] % 2 == 1
+    if warm:
+        # the Grid has been used before, for another tracer of the same name, dimensions and shape (the next time step):
+        # every transform is computed from the target_data it is given
+        try:
+            other = td.roll(col=1, roll_coords=False) if ncol > 1 else td[..., ::-1]
+            other = (other * 2 + 1).rename(td.name)
+            with dask.config.set(scheduler=desc["dask"] or "synchronous"):
+                g.transform(da, "Z", target, method="conservative", target_data=other).compute()
+        except Exception:
+            ctx.count("warm_up_call_raised")
     try:
         with dask.config.set(scheduler=desc["dask"] or "synchronous"):
             r = g.transform(da, "Z", target, method="conservative", **tdkw)
